@@ -58,8 +58,14 @@ static int classify(struct dfs* d, size_t ntok, rdecode* rd) {
   /* a truncated token cannot occur: tokens are complete heads; eager/lazy pairs count as rejected */
   return VD_REJECT;
 }
+static unsigned long dfs_nodes;
 static void rec(struct dfs* d, size_t ntok, size_t lasttok) {
   rdecode rd;
+  if ((++dfs_nodes & 0xfffff) == 0 && vf_deadline_left() < 0) { /* global deadline: stop, and say so */
+    vf_not_exhaustive("global deadline reached inside a DFS unit: the remaining subtree of that unit was not explored");
+    d->k = 0;
+  }
+  if (d->k == 0) return;
   int st = classify(d, ntok, &rd);
   /* at the depth bound, sequences that are still open are reported only when their last head is in Sigma' (they all end in the
    * same verdict - need more data at the end - and differ only in which container was opened last) */
